@@ -215,6 +215,11 @@ func isolationCase(c *Ctx) {
 							target = j
 						}
 					}
+					// ... or to the exporter itself: the second handle moves to new keys, the
+					// structure it was attached to stays as it is
+					if target < 0 || c.rng.Intn(3) == 0 {
+						target = i
+					}
 				}
 				if target >= 0 {
 					if h2, err := structs[target].kind.attach(structs[target].mk); err == nil && h2 != nil {
